@@ -1571,6 +1571,34 @@ func runE4Sched(p *Program, sp *Spec, c *Collector) {
 				switch x := in.(type) {
 				case *ssa.Go:
 					what = "go statement"
+					// the allowance for goroutines rests on "one channel, one sender": a go statement inside a loop that hands
+					// every goroutine the same channel (made outside the loop) has several senders, and what is received follows
+					// the order in which they finish
+					if region := loopRegion(fn, b); region != nil {
+						var chans []ssa.Value
+						for _, a := range x.Call.Args {
+							chans = append(chans, a)
+						}
+						if mc, ok := x.Call.Value.(*ssa.MakeClosure); ok {
+							chans = append(chans, mc.Bindings...)
+						}
+						for _, cv := range chans {
+							t := cv.Type()
+							if pt, ok := t.Underlying().(*types.Pointer); ok {
+								t = pt.Elem()
+							}
+							if _, isChan := t.Underlying().(*types.Chan); !isChan {
+								continue
+							}
+							def, ok := cv.(ssa.Instruction)
+							if !ok || !region[def.Block()] {
+								perPkg[pk+"|shared"] = append(perPkg[pk+"|shared"], "goroutines started in a loop of "+shortFn(p.FuncKey(fn))+" all send on one channel made outside it")
+								if posOf[pk+"|shared"] == "" {
+									posOf[pk+"|shared"] = p.InstrPos(in)
+								}
+							}
+						}
+					}
 				case *ssa.Select:
 					what = "select"
 				case *ssa.Call:
@@ -1597,6 +1625,10 @@ func runE4Sched(p *Program, sp *Spec, c *Collector) {
 	}
 	for _, pk := range sortedKeys(perPkg) {
 		key := "sched:" + pk
+		if strings.HasSuffix(pk, "|shared") {
+			c.Ob(props, "E4.sched-audit", "sched:"+strings.TrimSuffix(pk, "|shared")+" shared channel", Violated, "results are received in the order the goroutines finish: "+strings.Join(dedupStrings(perPkg[pk]), "; "), posOf[pk], false)
+			continue
+		}
 		if why, ok := sp.Tables.SchedAllowed[pk]; ok {
 			c.Ob(props, "E4.sched-audit", key, Discharged, "allowed: "+why+" ("+strings.Join(dedupStrings(perPkg[pk]), "; ")+")", posOf[pk], false)
 		} else {
